@@ -279,3 +279,31 @@ def mc_reach(ctx, invariants):
         total += res.distinct
     ctx.log(f'MC_Reach: {len(cfgs)} complete reachable graphs, {total} states')
     return total
+
+
+def random_big_part(ctx, prefixes, n, seed_offset=0):
+    """random larger states (up to 13x13, any mix of objects, several obstacles / telepods / boxes / doors), random
+    compositions of the rule-shaped kind, seeded outcomes: the declarative rules on grids far beyond the exhaustive scopes"""
+    import random as _random
+    from harness import obs as obsh
+    rng = _random.Random(ctx.seed * 977 + seed_offset)
+    O = steps.O
+    jobs = []
+    shaped = ['basic', 'keydoor', 'obstacles', 'teleport', 'all', 'all2', 'nested']
+    for i in range(n):
+        h, w = rng.randint(2, 13), rng.randint(2, 13)
+        st = obsh.random_state(rng, h, w, p_opaque=0.2)
+        cells = [(y, x) for y in range(h) for x in range(w)]
+        for (y, x) in rng.sample(cells, min(len(cells), rng.randint(0, 6))):
+            st['grid'][y][x] = rng.choice([O('MovingObstacle'), O('Telepod', 0, 'RED'), O('Telepod', 0, 'BLUE'), O('Door', 1, 'RED'), O('Door', 2, 'BLUE'),
+                                           O('Key', 0, 'BLUE'), O('Box', 0, 'NONE', O('Key', 0, 'RED')), O('Box', 0, 'NONE', O('Box', 0, 'NONE', O('Floor')))])
+        # put something interesting in front of the agent half of the time
+        dy, dx = {'F': (-1, 0), 'R': (0, 1), 'B': (1, 0), 'L': (0, -1)}[st['ori']]
+        fy, fx = st['pos'][0] + dy, st['pos'][1] + dx
+        if 0 <= fy < h and 0 <= fx < w and rng.random() < 0.5:
+            st['grid'][fy][fx] = rng.choice([O('Door', 1, 'RED'), O('Door', 2, 'RED'), O('Key', 0, 'RED'), O('Box', 0, 'NONE', O('Wall')), steps.FLOOR, O('Wall')])
+        st['item'] = rng.choice(steps.HELD + [O('Door', 0, 'RED')])
+        # the agent must not stand on a blocking cell for the kinematics rule to be about a sensible state
+        jobs.append(dict(rec_id=i, st_json=st, space=steps.family_space(h, w), comps=steps.COMPOSITIONS[rng.choice(shaped)],
+                         seeds=[rng.randrange(2 ** 31) for _ in range(2)]))
+    return run_step_part(ctx, 'random_big', jobs, dict(comps=steps.T_ALL, via='direct'), prefixes)
